@@ -640,19 +640,21 @@ theorem bdt_roundtrip (s l p : Nat) (rest : Bytes) (hs : s < 2 ^ 32) (hl : l < 2
     bdtParse (bdtEncode s l p ++ rest) = .ok (s, l, p) :=
   HabDcd.bdt_roundtrip_aux s l p rest hs hl hp
 
-/-- OPEN FINDING C07-checkdata-zero-count (current behaviour, stated): a Check Data command with poll count 0 is
-    exported as 16 bytes under a header length of 12 and parses back WITHOUT a count; `DCmd.WF` excludes exactly it.
-    Full-strength statement that fails today: `dcd_cmd_roundtrip` with `∀ c, count = some c → c < 2 ^ 32` in `DCmd.WF`. -/
-theorem checkdata_zero_count_breaks (w o a m : Nat) (hw : w ∈ HabDcd.Spec.widths) (ho : o < 4) (ha : a < 2 ^ 32)
+/-- Check Data with poll count 0 round-trips (defect C07-checkdata-zero-count, fixed by 8656d83: before, 16 bytes were
+    exported under a header length of 12 and the count was lost; reverting the fix breaks `dcd_cmd_roundtrip` for
+    `count = some 0` in the correspondence and the oracle).  `DCmd.WF` now admits every count `< 2 ^ 32`, so this is an
+    instance of `dcd_cmd_roundtrip`, kept as the explicit statement of the repaired case.  Likewise (6f0b9cd)
+    `CmdInitialize(engine, data)` builds the same object as `append` does: `DCmd.init e data` for every word list. -/
+theorem checkdata_zero_count_roundtrip (w o a m : Nat) (hw : w ∈ HabDcd.Spec.widths) (ho : o < 4) (ha : a < 2 ^ 32)
     (hm : m < 2 ^ 32) (rest : Bytes) :
-    (DCmd.checkData w o a m (some 0)).size = 12 ∧ (DCmd.checkData w o a m (some 0)).encode.length = 16 ∧
-    DCmd.decode ((DCmd.checkData w o a m (some 0)).encode ++ rest) = some (.checkData w o a m none) :=
-  HabDcd.checkData_zero_count_breaks w o a m hw ho ha hm rest
+    (DCmd.checkData w o a m (some 0)).size = 16 ∧ (DCmd.checkData w o a m (some 0)).encode.length = 16 ∧
+    DCmd.decode ((DCmd.checkData w o a m (some 0)).encode ++ rest) = some (.checkData w o a m (some 0)) :=
+  HabDcd.checkData_zero_count_roundtrip w o a m hw ho ha hm rest
 
 /-! non-vacuity and sanity -/
 def exDcdCmds : List DCmd :=
   [.writeData 4 0 [(0x400FC068, 0xFFFFFFFF), (0x400FC06C, 0)], .writeData 1 3 [], .checkData 2 1 0x401F8000 0x0101 none,
-   .checkData 4 3 0xFFFFFFFF 1 (some 5), .other (.nop 0), .other (.unlock 0x1E 1 0)]
+   .checkData 4 3 0xFFFFFFFF 1 (some 0), .other (.nop 0), .other (.unlock 0x1E 1 0)]
 
 example : ∀ c ∈ exDcdCmds, c.WF := by
   intro c hc
